@@ -53,6 +53,17 @@ def gen_tokens():
     L.append("def basedIntRegex : String := " + lstr(T.BASED_INT_REGEX.pattern))
     L.append("def numRegex : String := " + lstr(T.NUM_REGEX.pattern))
     L.append("def numRegexVerbose : Bool := " + lbool(bool(T.NUM_REGEX.flags & re.VERBOSE)))
+    # behavioural probe of the one place where the reader leans on a lenient library call:
+    # int(group2, base=2) accepts a base prefix of its own, so '0b0b1' reads as 1 unless the code rejects it
+    try:
+        tok = T.read_num_token(0, "0b0b1")
+        if not (tok.tag == "number" and tok.end_index_excl == 5 and tok.meta("value") == 1):
+            raise Exception("read_num_token('0b0b1') returned an unexpected token %r" % ((tok.tag, tok.end_index_excl, tok._meta),))
+        accepts = True
+    except T.BadNumberError:
+        accepts = False
+    L.append("/-- probe: does `read_num_token` let `int(…, base=2)` swallow a second `0b`/`0B` prefix (`0b0b1` = 1)? -/")
+    L.append("def intAcceptsBinPrefix : Bool := " + lbool(accepts))
     L.append("end KaVerif.Gen.Tokens\n")
     write_if_changed("Tokens", "\n".join(L))
 
